@@ -599,8 +599,23 @@ func (s *Sim) waitForD(timeout time.Duration, pred func(ev *Event) bool) *Event 
 	return s.waitFor(timeout, pred, true)
 }
 
+// starved reports whether this process is currently being scheduled so late that the
+// driver's liveness bounds (seconds) say nothing about the engine: five 2 ms sleeps, one of
+// which overshoots by more than 40 ms.
+func starved() bool {
+	for i := 0; i < 5; i++ {
+		t0 := time.Now()
+		time.Sleep(2 * time.Millisecond)
+		if time.Since(t0) > 42*time.Millisecond {
+			return true
+		}
+	}
+	return false
+}
+
 func (s *Sim) waitFor(timeout time.Duration, pred func(ev *Event) bool, driver bool) *Event {
 	deadline := time.Now().Add(timeout)
+	extended := false
 	for {
 		remain := time.Until(deadline)
 		if remain < 0 {
@@ -613,6 +628,15 @@ func (s *Sim) waitFor(timeout time.Duration, pred func(ev *Event) bool, driver b
 			ev = s.Next(remain)
 		}
 		if ev == nil {
+			// a bound of a second or more that ran out while the machine is oversubscribed is
+			// extended once (four more times the bound): lateness of the harness or of Go's timers
+			// must not be reported as an engine that does not move
+			if driver && !extended && timeout >= time.Second && starved() {
+				extended = true
+				deadline = time.Now().Add(4 * timeout)
+				s.Label("wait_extended_machine_starved")
+				continue
+			}
 			return nil
 		}
 		if pred(ev) {
